@@ -52,6 +52,7 @@ fn main() {
         "C10" => {
             suites_sched::run_suite(&mut em, thorough, seed, false, false);
             suites_sched::run_gz_suite(&mut em, thorough);
+            suites_sched::free_running(&mut em, thorough);
         }
         "C11" => {
             if shard0 {
